@@ -406,6 +406,9 @@ func runTraceBatch(ctx context.Context, w *vgen.Writer, t *traceRig, b spanBatch
 	w.Tally(fmt.Sprintf("traces:resources=%d", len(b.resources)))
 	w.Tally(fmt.Sprintf("traces:scopes=%d", len(b.scopes)))
 	w.Tally(fmt.Sprintf("traces:spans=%d", (len(snaps)+2)/3*3))
+	if twoSpellings(scPool) {
+		w.Tally("traces:shape:scope-spelled-two-ways")
+	}
 	if b.twin {
 		w.Tally("traces:shape:resources-differ-only-in-schema-url")
 	}
@@ -451,6 +454,10 @@ func traceCorpus() []spanBatch {
 	out = append(out, spanBatch{stubs: tracetest.SpanStubs{mk(1, "a", res1, scA), mk(2, "v", res1, scV), mk(3, "u", res1, scU), mk(4, "t1", res1, scT1),
 		mk(5, "t2", res1, scT2), mk(6, "b", res1, scB), mk(7, "t1'", res1, scT1), mk(8, "a'", res1, scA)},
 		resources: []*resource.Resource{res1}, scopes: []instrumentation.Scope{scA, scV, scU, scT1, scT2, scB}, ri: []int{0, 0, 0, 0, 0, 0, 0, 0}, si: []int{0, 1, 2, 3, 4, 5, 3, 0}})
+	// one scope, its empty attribute set spelled as the zero Set and as attribute.NewSet(): two Go map keys
+	scA2 := instrumentation.Scope{Name: "lib/a", Version: "v1", Attributes: attribute.NewSet()}
+	out = append(out, spanBatch{stubs: tracetest.SpanStubs{mk(1, "z1", res1, scA), mk(2, "n1", res1, scA2), mk(3, "z2", res1, scA), mk(4, "n2", res3, scA2), mk(5, "n3", res1, scA2)},
+		resources: []*resource.Resource{res1, res3}, scopes: []instrumentation.Scope{scA, scA2}, ri: []int{0, 0, 0, 1, 0}, si: []int{0, 1, 0, 1, 1}})
 	// exporter-level paths: an empty batch, a batch of nil spans only (nothing to upload), nil spans between real ones
 	out = append(out, spanBatch{})
 	out = append(out, spanBatch{nils: []int{0, 0}})
